@@ -1,9 +1,9 @@
 #!/bin/bash
-# usage: tools/confirm_pair.sh <Cxx> <outdir> <first-id-number> "<needs1>" "<needs2>"
+# usage: tools/confirm_pair.sh <Cxx> <outdir> <first-id-number> "<needs1>" "<needs2>" [--no-suite]
 p=$1; o=$2; n=$3
 for k in 1 2; do
   id=$p-m$((n+k-1)); needs="$4"; [ $k = 2 ] && needs="$5"
   [ -f $o/change$k.diff ] || { echo "$id: no change$k.diff"; continue; }
   [ -f $o/notes$k.md ] && cp $o/notes$k.md $o/change$k.md
-  /verif/tools/confirm_seeded.py $id $p $o/change$k.diff $o/demo$k.py "$needs"
+  /verif/tools/confirm_seeded.py $id $p $o/change$k.diff $o/demo$k.py "$needs" $6
 done
